@@ -18,19 +18,109 @@ from .c10 import phi_leaves
 
 MANIFEST = {
     "level": "other",
-    "technique": "static analysis: operator conformance by symbolic evaluation against the data-model meaning of each special method, must-pass-through / positional dataflow of the input forms of Epoch.set (partial evaluation per form, component-by-component comparison of what each form hands to the validator), structural check of the day-fraction split, effect analysis",
-    "text": "All Epoch operators are shown to translate or compare the stored JDE exactly as named, with reflected and in-place forms agreeing and operands untouched; all input forms (numbers, tuple/list, date/datetime, copy, JDE) are shown to reach the one conversion routine with hours, minutes and seconds folded with the right divisors in the right positions, each form handing over its own components in calendar order (a datetime including its microseconds). The 1e-8 / 1e-9 round-trip tolerances and canonical field ranges at boundaries are floating-point facts and are not decided.",
-    "note": "Trusted: Python data model; DAY2HOURS/DAY2MIN/DAY2SEC literals are checked against 24/1440/86400. Undecided: round-trip tolerances, canonical h/m/s at boundaries, monotone date tuple.",
+    "technique": "static analysis: operator conformance by symbolic evaluation against the data-model meaning of each special method, must-pass-through / positional dataflow of the input forms of Epoch.set (partial evaluation per form, component-by-component comparison of what each form hands to the validator), structural check of the day-fraction split, exact execution (rational arithmetic) of the extracted JDE -> date/time fields term and of the date -> JDE term on boundary instants of every kind of civil day, effect analysis",
+    "text": "All Epoch operators are shown to translate or compare the stored JDE exactly as named, with reflected and in-place forms agreeing and operands untouched; all input forms (numbers, tuple/list, date/datetime, copy, JDE) are shown to reach the one conversion routine with hours, minutes and seconds folded with the right divisors in the right positions, each form handing over its own components in calendar order (a datetime including its microseconds). The JDE -> fields -> JDE clause is decided in exact rational arithmetic by executing the extracted get_full_date term on instants 0, 1 ms, 1 s, 59.999 s, ... 23:59:59.999 after the start of civil days around every kind of boundary (month and year ends in both calendars, leap days, October 1582, the first days of the domain): the fields name that civil day, hour/minute/second are canonical and equal to the offset, feeding them back through the date -> JDE term returns the JDE exactly, and the field tuple increases with the JDE. What floating-point rounding adds on top of the exact recipe (the 1e-8 / 1e-9 tolerances, a second field of 59.99999...) is not decided.",
+    "note": "Trusted: Python data model; DAY2HOURS/DAY2MIN/DAY2SEC literals are checked against 24/1440/86400. Undecided: floating-point tolerances of the round trips; instants off the executed grid.",
 }
 MOD, CLS = "Epoch", "Epoch"
+
+
+# --------------------------------------------------------------------------------------------------------------------------
+# R-FIELDS: JDE -> (y, m, d, h, mi, s) -> JDE by exact execution of the extracted terms on boundary instants
+# --------------------------------------------------------------------------------------------------------------------------
+FIELD_OFFSETS = ["0", "0.001", "1", "59.999", "60", "3599.999", "3600", "43199.999", "43200", "86340", "86399", "86399.999"]
+
+
+def field_grid(repo, rep, tier):
+    """R-FIELDS.  get_full_date is a rational recipe in the stored JDE (get_date's floors, then the 24/60/60 split).  Its extracted
+    term is executed exactly on instants 0, 1 ms, 1 s, ... 23:59:59.999 after the start of civil days around every kind of
+    boundary (month and year ends in both calendars, leap days, the October 1582 change-over, the first days of the domain):
+    the date fields must be that civil day, hour/minute/second canonical and equal to the offset, the fields fed back through the
+    date -> JDE term must return the JDE exactly, and the field tuple must increase with the JDE."""
+    from ..rules import eval_exact, NotEvaluable, repo_prims
+    from .c01 import _civil_days, _cycle_terms
+    from .c16 import stdlib_prims
+    rep.rule("R-FIELDS", "JDE -> (year, month, day, hour, minute, second) gives the civil day and the canonical time of day of the instant, "
+                         "recombines to the JDE exactly and increases with the JDE, on boundary instants of every kind of civil day (exact execution)")
+    site = "Epoch.Epoch.get_full_date"
+    rep.fn(MOD, "Epoch.get_full_date")
+    tj, tg, _ = _cycle_terms(repo.root)
+    J = T.sym("NUM_J")
+    Y, M, D = T.sym("NUM_Y"), T.sym("NUM_M"), T.sym("NUM_D")
+    try:
+        fn = repo.func(MOD, "Epoch.get_full_date")
+        at = {"self": ("epoch", J)}
+        if fn.args.kwarg is not None:
+            at[fn.args.kwarg.arg] = ("dict", ())
+        tf = ret_term(repo, MOD, "Epoch.get_full_date", arg_terms=at)
+    except AnalysisError as e:
+        rep.inconcl("R-FIELDS", site, "term not extractable: %s" % e)
+        return
+    gd = [x for x in T.walk(tf) if x[0] == "call" and x[1] == "Epoch.Epoch.get_date"]
+    tf = T.subst(tf, {x: tg for x in set(gd)})
+    prims = repo_prims(repo, stdlib_prims(repo))
+    starts = [((-4712, 1, 1), 3), ((-4712, 2, 27), 4), ((-1, 12, 30), 4), ((0, 2, 27), 4), ((4, 2, 27), 4), ((100, 2, 27), 4), ((1500, 2, 27), 4),
+              ((1582, 9, 29), 12), ((1582, 12, 30), 4), ((1583, 2, 27), 3), ((1600, 2, 27), 4), ((1700, 2, 27), 3), ((1899, 12, 30), 4),
+              ((1900, 2, 27), 3), ((1999, 12, 30), 4), ((2000, 2, 27), 4), ((2023, 1, 30), 40), ((2024, 2, 27), 4), ((2100, 2, 27), 3), ((5999, 12, 29), 3)]
+    if tier == "thorough":
+        starts += [((1999, 1, 1), 800), ((1201, 1, 1), 800), ((-801, 1, 1), 800)]
+    else:
+        starts += [((2023, 12, 1), 100), ((1203, 12, 1), 100)]
+    offs = [Fraction(o) for o in FIELD_OFFSETS]
+    n = 0
+    bad = {}
+    for st, cnt in starts:
+        prev = None
+        for (y, m, d) in _civil_days(st, cnt):
+            try:
+                j0 = eval_exact(tj, {Y: Fraction(y), M: Fraction(m), D: Fraction(d), "$memo": {}}, prims)
+            except NotEvaluable as e:
+                rep.inconcl("R-FIELDS", site, "date -> JDE term not executable: %s" % e)
+                return
+            for o in offs:
+                j = j0 + o / 86400
+                try:
+                    f = eval_exact(tf, {J: j, "$memo": {}}, prims)
+                except NotEvaluable as e:
+                    rep.inconcl("R-FIELDS", site, "term not executable: %s" % e)
+                    return
+                except (TypeError, ValueError, ZeroDivisionError) as e:
+                    bad.setdefault("error", []).append("%s: %s at JDE %s" % (type(e).__name__, e, float(j)))
+                    continue
+                n += 1
+                where = "%d-%02d-%02d + %s s (JDE %.9f)" % (y, m, d, float(o), float(j))
+                if not (isinstance(f, tuple) and len(f) == 6 and all(isinstance(x, (int, Fraction)) and not isinstance(x, bool) for x in f)):
+                    bad.setdefault("shape", []).append("%s -> %r" % (where, f))
+                    continue
+                shown = "(%d, %d, %s, %s, %s, %.6f)" % (f[0], f[1], f[2], f[3], f[4], float(f[5]))
+                if (f[0], f[1], f[2]) != (y, m, d):
+                    bad.setdefault("date", []).append("%s -> %s: not that civil day" % (where, shown))
+                elif not (Fraction(f[3]).denominator == 1 and Fraction(f[4]).denominator == 1 and 0 <= f[3] <= 23 and 0 <= f[4] <= 59 and 0 <= f[5] < 60):
+                    bad.setdefault("canonical", []).append("%s -> %s: hour/minute/second outside 0-23 / 0-59 / [0, 60)" % (where, shown))
+                elif f[3] * 3600 + f[4] * 60 + f[5] != o:
+                    bad.setdefault("time", []).append("%s -> %s: the time of day is %s s, not %s s" % (where, shown, float(f[3] * 3600 + f[4] * 60 + f[5]), float(o)))
+                else:
+                    back = eval_exact(tj, {Y: Fraction(f[0]), M: Fraction(f[1]), D: Fraction(f[2]) + Fraction(f[3]) / 24 + Fraction(f[4]) / 1440 + Fraction(f[5]) / 86400, "$memo": {}}, prims)
+                    if back != j:
+                        bad.setdefault("recombine", []).append("%s -> %s -> JDE %.9f" % (where, shown, float(back)))
+                if prev is not None and not (tuple(f) > prev[0]):
+                    bad.setdefault("monotone", []).append("%s -> %s, but the earlier JDE %.9f -> %s" % (where, shown, float(prev[1]), prev[0]))
+                prev = (tuple(f), j)
+    for kind, lst in sorted(bad.items()):
+        rep.violation("R-FIELDS", site, "fields:" + kind, lst[0] + "  (%d of %d instants fail this way)" % (len(lst), n), obligation=True)
+    if not bad:
+        rep.ok("R-FIELDS", site, "%d boundary instants executed exactly: civil day, canonical h/m/s equal to the offset, exact recombination, increasing tuple" % n, obligation=True)
+    rep.floor("instants executed through get_full_date", n, 3000)
 
 
 def run(repo, rep, tier):
     rep.decided = ["D1 operator conformance, fresh results, operands unchanged", "D2 input forms funnel into one conversion with positional h/m/s folding; split bases match",
                    "D3 copy reads only the stored value"]
-    rep.undecided = ["1e-8 / 1e-9 round trips", "canonical field ranges at boundaries", "monotone date tuple"]
+    rep.undecided = ["1e-8 / 1e-9 tolerances of the floating-point evaluation (the exact rational execution is decided on boundary instants: R-FIELDS)", "instants off the executed grid"]
+    rep.decided.append("D4 JDE -> fields -> JDE: civil day, canonical h/m/s, exact recombination and increasing tuple on boundary instants of every kind of civil day (R-FIELDS, exact execution)")
     opconf(repo, rep)
     funnel(repo, rep)
+    field_grid(repo, rep, tier)
     # field extraction (get_date) is the inverse of the date -> JDE conversion: constants must pair up
     from .c01 import d34
     d34(repo, rep)
